@@ -8,27 +8,35 @@ cd "$(dirname "$0")"
 export GOFLAGS=-mod=mod GOPROXY=off GOSUMDB=off GOTOOLCHAIN=local CGO_ENABLED=${CGO_ENABLED:-1}
 REPO=${VERIF_REPO:-/repo}
 MODFLAG=""
+TAGS="verif"
+BIN=bin/vcheck
+# VERIF_ONLY=C03 links only that check (bin/vcheck-C03): lets one check be built while others are mid-edit
+if [ -n "${VERIF_ONLY:-}" ]; then
+  TAGS="verif only only_$(echo "$VERIF_ONLY" | tr 'A-Z' 'a-z')"
+  BIN=bin/vcheck-$VERIF_ONLY
+fi
 build() {
   cp "$REPO/go.sum" go.sum 2>/dev/null
   mkdir -p bin work
   if [ "$REPO" != "/repo" ]; then
     # testing against a scratch worktree: same module file, other replace target
-    sed "s#=> /repo#=> $REPO#" go.mod > work/alt.mod; cp go.sum work/alt.sum
-    MODFLAG="-modfile=work/alt.mod"
+    alt=work/alt$(echo "$REPO" | tr '/' '_')
+    sed "s#=> /repo#=> $REPO#" go.mod > $alt.mod; cp go.sum $alt.sum
+    MODFLAG="-modfile=$alt.mod"
   fi
-  go build $MODFLAG -tags verif -o bin/vcheck ./cmd/vcheck || { echo "BUILD-FAILED: vcheck does not build against $REPO" >&2; exit 3; }
+  go build $MODFLAG -tags "$TAGS" -o $BIN.tmp.$$ ./cmd/vcheck && mv -f $BIN.tmp.$$ $BIN || { echo "BUILD-FAILED: vcheck does not build against $REPO" >&2; exit 3; }
 }
 build_race() {
-  go build $MODFLAG -race -tags verif -o bin/vcheck-race ./cmd/vcheck || { echo "BUILD-FAILED: race build" >&2; exit 3; }
+  go build $MODFLAG -race -tags "$TAGS" -o $BIN-race.tmp.$$ ./cmd/vcheck && mv -f $BIN-race.tmp.$$ $BIN-race || { echo "BUILD-FAILED: race build" >&2; exit 3; }
 }
 case "${1:-}" in
   --build) build; exit 0;;
 esac
 id=$1; tier=${2:-quick}
 build
-bin=bin/vcheck
+bin=$BIN
 case "$id" in
-  C11) build_race; bin=bin/vcheck-race;;
+  C11) build_race; bin=$BIN-race;;
 esac
 if [ "$tier" = "--replay" ]; then
   exec $bin replay "$3"
